@@ -9,6 +9,7 @@
 import PyTough.Model.ListingNav
 import PyTough.Proofs.ListingNav
 import PyTough.Proofs.ListingSeriesNavFrame
+import PyTough.Proofs.ListingSeriesCovers
 
 namespace Props.C07
 open Py Model.Nav Proofs.Nav
@@ -91,14 +92,45 @@ theorem file_index_in_range (rd : Rd)
     0 ≤ s.index ∧ s.index < rd.fulltimes.size :=
   index_in_range (fileNav rd) (file_load_sets_index rd) lt dist times steps u v0 s hopen ops hrun
 
-open Model.Listing in
-/-- For every file, with only `Covers` left as a per-file hypothesis: `nav_view_eq_fresh` for the whole-file reader. -/
-theorem file_nav_view_eq_fresh (rd : Rd) (view : Rd → W) (hcov : Covers (fileNav rd) view)
+/-! `Covers` as defined above quantifies over ALL states, which no real file satisfies (two arbitrary states need not belong
+    to the same file); the theorems below ask it only of states satisfying an invariant `P` that re-reading preserves.
+    `CoversOn P N view`: for `j < n` and `P`-states `v v'`, `(load j v).map view = (load j v').map view`;
+    `PreservedBy P N`: a successful `load j` (`j < n`) from a `P`-state gives a `P`-state. -/
+
+open Proofs.NavOn in
+/-- `nav_view_eq_fresh` for every reader, under hypotheses a real file can satisfy: `P` holds before `first()`, is preserved by
+    every successful re-read, and on `P`-states re-reading shows the same whatever was shown before. -/
+theorem nav_view_eq_fresh_on (P : V → Prop) (N : Nav V E) (view : V → W) (hp : PreservedBy P N)
+    (hcov : CoversOn P N view) (hl : LoadSetsIndex N)
     (lt : T → T → Bool) (dist : T → T → T) (times : List T) (steps : List Int)
-    (u v0 s : Rd) (hopen : first (fileNav rd) u = .ok v0)
+    (u v0 s : V) (hu : P u) (hopen : first N u = .ok v0)
+    (ops : List (Op T)) (hrun : run N lt dist times steps ops v0 = .ok s) :
+    ∃ f, setIndex N (N.idx s) v0 = .ok f ∧ view f = view s ∧ N.idx f = N.idx s :=
+  Proofs.NavOn.nav_view_eq_fresh_on P N view hp hcov hl lt dist times steps u v0 s hu hopen ops hrun
+
+open Model.Listing Proofs.NavOn in
+/-- The whole-file reader (every simulator family; `LoadSetsIndex` is proved, not assumed): for any invariant `P` of reader
+    states preserved by re-reading and on which re-reading covers, after any sequence of successful actions the reader shows —
+    index, time, step, every table cell (`fileView`) — what the opened reader shows positioned directly at that index. -/
+theorem file_nav_view_eq_fresh_on (rd : Rd) (P : Rd → Prop) (hp : PreservedBy P (fileNav rd))
+    (hcov : CoversOn P (fileNav rd) fileView)
+    (lt : T → T → Bool) (dist : T → T → T) (times : List T) (steps : List Int)
+    (u v0 s : Rd) (hu : P u) (hopen : first (fileNav rd) u = .ok v0)
     (ops : List (Op T)) (hrun : run (fileNav rd) lt dist times steps ops v0 = .ok s) :
-    ∃ f, setIndex (fileNav rd) s.index v0 = .ok f ∧ view f = view s ∧ f.index = s.index :=
-  nav_view_eq_fresh (fileNav rd) view hcov (file_load_sets_index rd) lt dist times steps u v0 s hopen ops hrun
+    ∃ f, setIndex (fileNav rd) s.index v0 = .ok f ∧ fileView f = fileView s ∧ f.index = s.index :=
+  Proofs.NavOn.nav_view_eq_fresh_on P (fileNav rd) fileView hp hcov (file_load_sets_index rd) lt dist times steps u v0 s hu hopen ops hrun
+
+open Model.Listing Proofs.NavOn in
+/-- … with `P` = membership in a finite set `S` of reader states (the orbit of the reader under re-reading): both hypotheses
+    are then ONE decidable per-file check `orbitOk` — re-reading any result from a state of `S` lands in `S` and shows the same
+    from every state of `S`.  What stays per file is exactly this check (it fails when rows are missing at a result time:
+    `stale_cells_witness`). -/
+theorem file_nav_view_eq_fresh_orbit (rd : Rd) (S : List Rd) (hS : orbitOk (fileNav rd) fileView S = true)
+    (lt : T → T → Bool) (dist : T → T → T) (times : List T) (steps : List Int)
+    (u v0 s : Rd) (hu : u ∈ S) (hopen : first (fileNav rd) u = .ok v0)
+    (ops : List (Op T)) (hrun : run (fileNav rd) lt dist times steps ops v0 = .ok s) :
+    ∃ f, setIndex (fileNav rd) s.index v0 = .ok f ∧ fileView f = fileView s ∧ f.index = s.index :=
+  file_nav_view_eq_fresh_on rd (· ∈ S) (orbitOk_spec _ _ S hS).1 (orbitOk_spec _ _ S hS).2 lt dist times steps u v0 s hu hopen ops hrun
 
 -- a two-result AUTOUGH2-style file (title, header line, column header, two rows, closing keyword) and its element table
 section fileExample
@@ -126,6 +158,13 @@ example : (match first (fileNav exRd) exRd with
      | .ok s => s.index == 1 && (s.tables.map (fun nt => nt.2.data)) == [#[#[.fin false 55 (-1), .fin false 65 (-1)], #[.fin false 75 (-1), .fin false 85 (-1)]]]
      | .error _ => false)
   | .error _ => false) = true := by decide +kernel
+-- the hypotheses of file_nav_view_eq_fresh_orbit / _on discharged on this file: S = the reader as given and as left by
+-- re-reading result 0 and result 1; `orbitOk` evaluated by the kernel gives PreservedBy and CoversOn for P = (· ∈ S)
+private def exAt (j : Nat) : Rd := match (fileNav exRd).load j exRd with | .ok v => v | .error _ => exRd
+private theorem exOrbit : Proofs.NavOn.orbitOk (fileNav exRd) Proofs.NavOn.fileView [exRd, exAt 0, exAt 1] = true := by decide +kernel
+example : Proofs.NavOn.PreservedBy (· ∈ [exRd, exAt 0, exAt 1]) (fileNav exRd) ∧
+    Proofs.NavOn.CoversOn (· ∈ [exRd, exAt 0, exAt 1]) (fileNav exRd) Proofs.NavOn.fileView ∧ exRd ∈ [exRd, exAt 0, exAt 1] :=
+  ⟨(Proofs.NavOn.orbitOk_spec _ _ _ exOrbit).1, (Proofs.NavOn.orbitOk_spec _ _ _ exOrbit).2, List.mem_cons_self⟩
 end fileExample
 
 /-! ### next and prev report whether they moved and never move past either end -/
